@@ -5,6 +5,6 @@ D="$1"
 git -C /repo worktree add --detach "$D" HEAD >/dev/null 2>&1
 cp /repo/Cargo.lock "$D/Cargo.lock" 2>/dev/null || true
 mkdir -p "$D/target"
-cp -r /repo/target/debug "$D/target/debug"
+cp -r /tmp/target-snapshot/debug "$D/target/debug" 2>/dev/null || cp -r /repo/target/debug "$D/target/debug"
 mkdir -p "$D/out"
 echo "$D ready"
